@@ -276,16 +276,28 @@ def run(spec, res):
                 continue
             with open(ppath, 'wb') as fh:
                 fh.write(img[:cut])
+            # gridded files: every other chunk opens the prefix for update
+            # ('r+'), where a reader that asks for more than the file holds
+            # can silently GROW it
+            pspec = spec
+            if fmt == 'uamiv' and spec.get('chunk', 0) % 2 == 1:
+                pspec = dict(spec, open_mode='r+')
             # a wind step ends with a content-free dummy record: its data
             # are complete once the last V record is
             data_edges = step_edges if fmt != 'wind' else set(
                 edges[hdr - 1 + per * (i + 1) - 1] for i in range(nt))
             outcome, problem = judge_prefix(
-                fmt, ppath, spec, full, prefix=img[:cut],
+                fmt, ppath, pspec, full, prefix=img[:cut],
                 complete=(sum(1 for e_ in data_edges if e_ <= cut)
                           if fmt != 'landuse' else None))
             res.hook('prefix.open')
             res.hook('oracle.compare')
+            if pspec is not spec:
+                res.facet('open-mode:r+')
+                if os.path.getsize(ppath) != cut:
+                    # (update mode may write; what the property judges is
+                    # what the reader then presents)
+                    res.note('prefix-grown-by-open:r+')
             cls = classify(cut, edges, step_edges, hdr_end)
             res.ev(digest([spec, cut]), True,
                    ['fmt:' + fmt, 'cut:' + cls, 'outcome:' + outcome])
